@@ -644,7 +644,14 @@ def lockdir_facts(target="lockdir"):
             destructive = name in DESTRUCTIVE
             args = c.words[1:]
             if name == "find":
-                destructive = "-delete" in args or any(a in ("-exec", "-execdir", "-ok") and k + 1 < len(args) and os.path.basename(args[k + 1]) in DESTRUCTIVE for k, a in enumerate(args))
+                # find ... | xargs rm
+                nxt = [d for d in cmds if d.order == c.order + 1 and d.andor == "|" and d.func == c.func]
+                piped = False
+                for d in nxt:
+                    dn = os.path.basename(d.words[0]) if d.words else ""
+                    if dn == "xargs" and any(os.path.basename(w) in DESTRUCTIVE for w in d.words[1:]):
+                        piped = True
+                destructive = piped or "-delete" in args or any(a in ("-exec", "-execdir", "-ok") and k + 1 < len(args) and os.path.basename(args[k + 1]) in DESTRUCTIVE for k, a in enumerate(args))
                 # the start points of find are the words before the first option
                 sp = []
                 for a in args:
